@@ -60,9 +60,16 @@ func consistent(g *Grammar) (err error) {
 			return fmt.Errorf("empty production alternative: Maybe you are missing the \"empty\" keyword in %q", prod)
 		}
 		defs[prod.Id] = true
-		for _, s := range prod.Body.Symbols {
+		for i, s := range prod.Body.Symbols {
 			if s.String()[0] == '"' {
 				continue
+			}
+			// The reserved words are scanned as ordinary identifiers.
+			switch {
+			case s.String() == "empty" && len(prod.Body.Symbols) != 1:
+				return fmt.Errorf("\"empty\" must be the only symbol of its alternative in %q", prod)
+			case s.String() == "error" && i != 0:
+				return fmt.Errorf("\"error\" must be the first symbol of its alternative in %q", prod)
 			}
 			used[s.String()] = append(used[s.String()], prod.Id)
 		}
